@@ -99,19 +99,58 @@ def total_T(spec):
     return sum(d for _, d, _ in spec["sched"])
 
 
+# positions: default float32 stamps 1000*chain + t + 1.  The dtype part of the tested ArviZ / pickle clause stores
+# values a float32 cannot hold: float64 stamps + 2**-30 (under jax x64), int32 stamps above 2**24 (odd).
+EPS64 = 2.0 ** -30
+BIG32 = 2 ** 24 + 1
+
+
+def pos_value(spec, c, t0):
+    """scripted position of chain c after transition t0 (0-based), as an exact python number"""
+    dt = spec.get("dtype")
+    base = 1000 * c + t0 + 1
+    return base + EPS64 if dt == "float64" else BIG32 + 2 * base if dt == "int32" else base
+
+
+def init_value(spec, key, c):
+    dt = spec.get("dtype")
+    base = INIT[key] + c
+    return base + EPS64 if dt == "float64" else BIG32 + 2 * base if dt == "int32" else base
+
+
+def np_dtype(spec):
+    np = lib()["np"]
+    return {"float64": np.float64, "int32": np.int32}.get(spec.get("dtype"), np.float32)
+
+
+def x64_context(spec):
+    import contextlib
+    if spec.get("dtype") == "float64":
+        from jax.experimental import enable_x64
+        return enable_x64()
+    return contextlib.nullcontext()
+
+
 def run_engine(spec):
     L = lib()
     np, jnp, gs, jax = L["np"], L["jnp"], L["gs"], L["jax"]
     C, T = spec["chains"], total_T(spec)
-    state = {"x": jnp.asarray([float(INIT["x"] + c) for c in range(C)], dtype=jnp.float32),
-             "y": jnp.asarray([float(INIT["y"] + c) for c in range(C)], dtype=jnp.float32),
+    dt = spec.get("dtype")
+    jdt = {"float64": jnp.float64, "int32": jnp.int32}.get(dt, jnp.float32)
+    state = {"x": jnp.asarray([init_value(spec, "x", c) for c in range(C)], dtype=jdt),
+             "y": jnp.asarray([init_value(spec, "y", c) for c in range(C)], dtype=jdt),
              "cid": jnp.arange(C, dtype=jnp.int32)}
+    stamp = None
+    if dt == "float64":
+        stamp = lambda cid, t: (1000 * cid + t).astype(jnp.float64) + EPS64
+    elif dt == "int32":
+        stamp = lambda cid, t: (BIG32 + 2 * (1000 * cid + t)).astype(jnp.int32)
     for kid in ("ka", "kb"):
         tab = spec["tabs"].get(kid) or [[0] * T for _ in range(C)]
         # the kernel indexes by EpochState.time; the initial-values epoch occupies time 0
         state["tab_" + kid] = jnp.asarray([[0] + list(r) for r in tab], dtype=jnp.int32)
     mk = {"ka": L["ck"].ScriptedKernelA, "kb": L["ck"].ScriptedKernelB}
-    kernels = [mk[k](POS_KEY[k], "tab_" + k, k) for k in spec["kernels"]]
+    kernels = [mk[k](POS_KEY[k], "tab_" + k, k, stamp) for k in spec["kernels"]]
     model = gs.DictInterface(lambda st: jnp.float32(0.0))
     cfgs = [L["EpochConfig"](L["EpochType"].INITIAL_VALUES, 1, 1, None)] + [
         L["EpochConfig"](L["EpochType"](int(t)), int(d), int(th), None) for t, d, th in spec["sched"]]
@@ -145,7 +184,8 @@ def run_synth(spec):
     pos.advance_epoch(init)
     ti.advance_epoch(init)
     keys = [POS_KEY[k] for k in spec["kernels"]]
-    pos.append({key: np.asarray([[INIT[key] + c] for c in range(C)], dtype=np.float32) for key in keys})
+    ndt = np_dtype(spec)
+    pos.append({key: np.asarray([[init_value(spec, key, c)] for c in range(C)], dtype=ndt) for key in keys})
     t = 0
     for ty, d, th in spec["sched"]:
         cfg = L["EpochConfig"](L["EpochType"](int(ty)), int(d), int(th), None)
@@ -154,7 +194,7 @@ def run_synth(spec):
         k = 0
         while k < d:
             n = min(d - k, rnd.randint(1, max(1, int(spec.get("chunk") or 3))))
-            stamps = np.asarray([[1000 * c + u + 1 for u in range(t + k, t + k + n)] for c in range(C)], dtype=np.float32)
+            stamps = np.asarray([[pos_value(spec, c, u) for u in range(t + k, t + k + n)] for c in range(C)], dtype=ndt)
             pos.append({key: stamps.copy() for key in keys})
             ti.append({kid: L["DTI"](error_code=np.asarray(spec["tabs"][kid], dtype=np.int32)[:, t + k:t + k + n],
                                      acceptance_prob=np.ones((C, n), np.float32),
@@ -266,8 +306,99 @@ def observe(spec, res):
     return obs
 
 
+def _pack(a):
+    arr = lib()["np"].asarray(a)
+    return {"dtype": str(arr.dtype), "values": arr.tolist()}
+
+
+def observe_dtype(spec, res):
+    """tested clause only (wide dtypes): stored samples vs. ArviZ conversion vs. pickle round trip, values AND dtypes"""
+    L = lib()
+    ET = L["EpochType"]
+    obs = {"stored_all": {k: _pack(v) for k, v in sorted(res.get_samples().items())},
+           "stored_post": {k: _pack(v) for k, v in sorted(res.get_posterior_samples().items())},
+           "stored_warm": {k: _pack(v) for k, v in sorted(res.positions.combine_filtered(
+               lambda c: c.type != ET.POSTERIOR and c.type != ET.INITIAL_VALUES).unwrap().items())}}
+    keys = list(obs["stored_post"])
+    try:
+        idat = L["to_arviz"](res, include_warmup=False)
+        obs["arviz_posterior"] = {k: _pack(idat.posterior[k].values) for k in keys}
+        idw = L["to_arviz"](res, include_warmup=True)
+        obs["arviz_w_posterior"] = {k: _pack(idw.posterior[k].values) for k in keys}
+        obs["arviz_w_warmup"] = {k: _pack(idw.warmup_posterior[k].values) for k in keys}
+    except Exception as ex:
+        obs["arviz_exc"] = type(ex).__name__ + ": " + str(ex)[:160]
+    fd, path = tempfile.mkstemp(prefix="lv_c19_", suffix=".pkl")
+    os.close(fd)
+    try:
+        res.pkl_save(path)
+        r2 = L["SR"].pkl_load(path)
+        obs["pickle_samples"] = {k: _pack(v) for k, v in sorted(r2.get_samples().items())}
+        obs["pickle_log_all"] = _log(r2.get_error_log(False))
+        obs["log_all"] = _log(res.get_error_log(False))
+    except Exception as ex:
+        obs["pickle_exc"] = type(ex).__name__ + ": " + str(ex)[:160]
+    finally:
+        os.remove(path)
+    return obs
+
+
+def _first_diff(got, want):
+    """first position where two nested lists differ"""
+    if isinstance(got, list) and isinstance(want, list):
+        if len(got) != len(want):
+            return f"length {len(got)} vs {len(want)}"
+        for i, (g, w) in enumerate(zip(got, want)):
+            d = _first_diff(g, w)
+            if d:
+                return f"[{i}]" + d
+        return None
+    return None if got == want else f": {got!r} instead of {want!r}"
+
+
+def oracle_dtype(case):
+    spec, obs = case["spec"], case["obs"]
+    np = lib()["np"]
+    C, dt = spec["chains"], spec["dtype"]
+    keys = sorted(POS_KEY[k] for k in spec["kernels"])
+    val = lambda c, t: float(pos_value(spec, c, t)) if dt == "float64" else pos_value(spec, c, t)
+    ini = lambda k, c: float(init_value(spec, k, c)) if dt == "float64" else init_value(spec, k, c)
+    want = {"stored_all": {k: [[ini(k, c)] + [val(c, t) for t in stored_indices(spec, lambda ty: True)] for c in range(C)] for k in keys},
+            "stored_post": {k: [[val(c, t) for t in stored_indices(spec, lambda ty: ty == 4)] for c in range(C)] for k in keys},
+            "stored_warm": {k: [[val(c, t) for t in stored_indices(spec, lambda ty: ty != 4)] for c in range(C)] for k in keys}}
+    for grp, w in want.items():
+        for k in keys:
+            g = obs[grp].get(k)
+            if g is None or g["dtype"] != dt or g["values"] != w[k]:
+                return (f"stored samples ({grp}, key {k}) are not the scripted {dt} positions: dtype {g and g['dtype']}, "
+                        f"first difference {g and _first_diff(g['values'], w[k])}")
+    if "arviz_exc" in obs:
+        return f"to_arviz_inference_data raised {obs['arviz_exc']} on {dt} samples"
+    if "pickle_exc" in obs:
+        return f"pkl_save / pkl_load raised {obs['pickle_exc']} on {dt} samples"
+    for name, grp, call in (("arviz_posterior", "stored_post", "to_arviz_inference_data(include_warmup=False).posterior"),
+                            ("arviz_w_posterior", "stored_post", "to_arviz_inference_data(include_warmup=True).posterior"),
+                            ("arviz_w_warmup", "stored_warm", "to_arviz_inference_data(include_warmup=True).warmup_posterior"),
+                            ("pickle_samples", "stored_all", "pkl_load(pkl_save(results)).get_samples()")):
+        for k in keys:
+            g, w = obs[name][k], obs[grp][k]
+            if g["values"] != w["values"]:
+                return (f"{call}[{k!r}] does not preserve the stored {w['dtype']} samples exactly (converted dtype {g['dtype']}): "
+                        f"element {_first_diff(g['values'], w['values'])}")
+            # dtype: identical, or a lossless widening (a narrowing / float<->int change cannot hold every stored value)
+            if g["dtype"] != w["dtype"] and not np.can_cast(np.dtype(w["dtype"]), np.dtype(g["dtype"]), "safe"):
+                return f"{call}[{k!r}] has dtype {g['dtype']}, the stored samples are {w['dtype']} (not a lossless conversion)"
+    if obs["pickle_log_all"] != obs["log_all"] or obs["log_all"] != expected(spec)["log_all"]:
+        return "pkl_save / pkl_load does not preserve the transition infos (error log differs)"
+    return None
+
+
 def run_case(spec):
     try:
+        if spec.get("dtype"):
+            with x64_context(spec):
+                res = run_engine(spec) if spec["kind"] == "engine" else run_synth(spec)
+                return {"spec": spec, "obs": observe_dtype(spec, res)}
         res = run_engine(spec) if spec["kind"] == "engine" else run_synth(spec)
         return {"spec": spec, "obs": observe(spec, res)}
     except Exception as ex:           # the implementation raised where no scripted run should: judged by the oracle
@@ -375,6 +506,8 @@ def oracle(case):
     spec, obs = case["spec"], case["obs"]
     if obs is None:
         return f"running / reading the scripted run raised {case.get('error')}"
+    if spec.get("dtype"):
+        return oracle_dtype(case)
     exp = expected(spec)
     for mode, arg in (("log_all", "False"), ("log_post", "True")):
         if obs[mode] != exp[mode]:
@@ -621,6 +754,26 @@ def gen_specs(ctx, rnd, offset=0):
     return specs
 
 
+def dtype_specs(ctx, rnd):
+    """tested ArviZ / pickle clause on samples a float32 cannot hold: float64 positions (jax x64 enabled for these runs
+    only) and int32 positions above 2**24; real engine runs and assembled results, warmup + posterior, with thinning"""
+    out = []
+    n = 1 if ctx.quick else 4
+    i = 0
+    for rep in range(n):
+        for dt in ("float64", "int32"):
+            for kind in ("engine", "synth"):
+                shape = ["thin_both", "std", "thin_post", "thin_warm"][(rep + i) % 4]
+                base = random_spec(rnd, kind, 20000 + i, {"shape": shape, "chains": CHAINS[i % len(CHAINS)],
+                                                          "kernels": KERNELS[i % len(KERNELS)], "pattern": "none"}, True)
+                spec = retable(rnd, base, 20000 + i, "both")
+                spec["dtype"] = dt
+                spec["stratum"] = f"dtype/{dt}/{kind}"
+                out.append(spec)
+                i += 1
+    return out
+
+
 def features(spec):
     ph = phases(spec)
     f = []
@@ -645,7 +798,7 @@ def features(spec):
 def generate(ctx):
     rnd = random.Random(ctx.seed)
     lib()
-    specs = gen_specs(ctx, rnd)
+    specs = gen_specs(ctx, rnd) + dtype_specs(ctx, rnd)
     cases = []
     for s in specs:
         cases.append(run_case(s))
@@ -658,7 +811,7 @@ def generate(ctx):
     ctx.cov["rule"] = ("one case = one SamplingResults object (real engine run with scripted kernels, or assembled through "
                        "EpochChainManager's public API) on which all observables are compared; distinct non-trivial = distinct "
                        "(schedule, error tables, kernel order) with at least one non-zero error code")
-    for c in [c for c in cases if c["obs"]][:3]:
+    for c in [c for c in cases if c["obs"] and not c["spec"].get("dtype")][:3]:
         ctx.sample({"spec": c["spec"], "error_df_rows": (c["obs"]["summary"] or {}).get("df_chain", [])[:4]}, limit=3)
     ctx.tested_not_proved += [
         "to_arviz_inference_data (with / without warmup) holds arrays equal to the stored samples (ArviZ, xarray trusted)",
@@ -753,8 +906,9 @@ def case_lit(case):
 def emit(ctx, cases):
     shards = []
     per = 60
-    for k in range(0, len(cases), per):
-        idxs = list(range(k, min(len(cases), k + per)))
+    modelled = [i for i, c in enumerate(cases) if not c["spec"].get("dtype")]     # dtype cases: tested clause only
+    for k in range(0, len(modelled), per):
+        idxs = modelled[k:k + per]
         rows = []
         for i in idxs:
             try:
